@@ -691,7 +691,9 @@ type Reach struct {
 	Barrier map[ssa.Instruction]bool // execution does not continue past these
 
 	via    map[Edge]bool
-	work   []Edge
+	work   []reachItem
+	seen   map[reachItem]bool
+	corr   map[ssa.Value]int        // booleans tested by two or more ifs (correlated branches)
 	entry  map[*ssa.BasicBlock]bool // block entered at its first instruction
 	from   map[*ssa.BasicBlock]Edge // how the block was first entered
 	start  ssa.Instruction
@@ -718,6 +720,8 @@ func (r *Reach) Run(start ssa.Instruction) *Reach {
 	r.entry = map[*ssa.BasicBlock]bool{}
 	r.from = map[*ssa.BasicBlock]Edge{}
 	r.via = map[Edge]bool{}
+	r.seen = map[reachItem]bool{}
+	r.corr = correlatedConds(r.Fn)
 	r.start = start
 	r.fromBlock = false
 	if start == nil {
@@ -726,7 +730,7 @@ func (r *Reach) Run(start ssa.Instruction) *Reach {
 		}
 		b0 := r.Fn.Blocks[0]
 		r.entry[b0] = true
-		r.leave(b0, 0, -1)
+		r.leave(b0, 0, -1, r.noFacts())
 	} else {
 		b := start.Block()
 		r.startB = b
@@ -735,7 +739,7 @@ func (r *Reach) Run(start ssa.Instruction) *Reach {
 				r.startI = i
 			}
 		}
-		r.leave(b, r.startI+1, -1)
+		r.leave(b, r.startI+1, -1, r.noFacts())
 	}
 	r.drain()
 	return r
@@ -747,11 +751,13 @@ func (r *Reach) RunFromBlock(b *ssa.BasicBlock) *Reach {
 	r.entry = map[*ssa.BasicBlock]bool{}
 	r.from = map[*ssa.BasicBlock]Edge{}
 	r.via = map[Edge]bool{}
+	r.seen = map[reachItem]bool{}
+	r.corr = correlatedConds(r.Fn)
 	r.start = nil
 	r.startB = b
 	r.startI = -1
 	r.fromBlock = true
-	r.leave(b, 0, -1)
+	r.leave(b, 0, -1, r.noFacts())
 	r.drain()
 	return r
 }
@@ -761,7 +767,7 @@ func (r *Reach) RunFromBlock(b *ssa.BasicBlock) *Reach {
 // idiom: when b's terminating If tests a boolean phi of b whose incoming value
 // on the entering edge is a constant, only the matching successor is feasible
 // (`valid := false … if !valid {return err}`).
-func (r *Reach) leave(b *ssa.BasicBlock, from int, predIdx int) {
+func (r *Reach) leave(b *ssa.BasicBlock, from int, predIdx int, facts string) {
 	if !r.tailOpen(b, from) {
 		return
 	}
@@ -769,27 +775,136 @@ func (r *Reach) leave(b *ssa.BasicBlock, from int, predIdx int) {
 	if predIdx >= 0 {
 		only = flagSucc(b, predIdx)
 	}
+	// correlated branches: a boolean SSA value keeps its value until its defining block is
+	// re-entered, so two ifs on the same value cannot disagree along one path
+	ci, cneg := -1, false
+	if len(r.corr) > 0 && len(b.Instrs) > 0 {
+		if ifi, ok := b.Instrs[len(b.Instrs)-1].(*ssa.If); ok {
+			v, neg := condRoot(ifi.Cond)
+			if idx, tracked := r.corr[v]; tracked {
+				ci, cneg = idx, neg
+			}
+		}
+	}
 	for i, s := range b.Succs {
 		if r.Cut[Edge{b, i}] || (only >= 0 && i != only) {
 			continue
 		}
+		f2 := facts
+		if ci >= 0 && len(b.Succs) == 2 {
+			val := byte('T') // value of the tracked boolean on this edge
+			if (i == 0) == cneg {
+				val = 'F'
+			}
+			if facts[ci] != '?' && facts[ci] != val {
+				continue // contradicts what an earlier test of the same value established
+			}
+			bs := []byte(facts)
+			bs[ci] = val
+			f2 = string(bs)
+		}
+		// entering s re-executes the definitions in s: forget what is known about them
+		if len(r.corr) > 0 {
+			var bs []byte
+			for v, idx := range r.corr {
+				if in, ok := v.(ssa.Instruction); ok && in.Block() == s && f2[idx] != '?' {
+					if bs == nil {
+						bs = []byte(f2)
+					}
+					bs[idx] = '?'
+				}
+			}
+			if bs != nil {
+				f2 = string(bs)
+			}
+		}
 		e := Edge{b, i}
-		if r.via[e] {
+		it := reachItem{e, f2}
+		if r.seen[it] {
 			continue
 		}
+		r.seen[it] = true
 		r.via[e] = true
 		if !r.entry[s] {
 			r.entry[s] = true
 			r.from[s] = e
 		}
-		r.work = append(r.work, e)
+		r.work = append(r.work, it)
 	}
+}
+
+type reachItem struct {
+	e Edge
+	f string
+}
+
+func (r *Reach) noFacts() string {
+	return strings.Repeat("?", len(r.corr))
+}
+
+var corrCache = map[*ssa.Function]map[ssa.Value]int{}
+
+// condRoot strips negations and comparisons with boolean constants from an if
+// condition: the tested value and whether the condition is its negation.
+func condRoot(v ssa.Value) (ssa.Value, bool) {
+	neg := false
+	for {
+		if u, ok := v.(*ssa.UnOp); ok && u.Op == token.NOT {
+			v, neg = u.X, !neg
+			continue
+		}
+		if bo, ok := v.(*ssa.BinOp); ok && (bo.Op == token.EQL || bo.Op == token.NEQ) {
+			if k, isk := ConstBool(bo.Y); isk {
+				if (bo.Op == token.EQL) != k {
+					neg = !neg
+				}
+				v = bo.X
+				continue
+			}
+		}
+		return v, neg
+	}
+}
+
+// correlatedConds: the boolean values of fn tested by at least two ifs (at most 6 are tracked).
+func correlatedConds(fn *ssa.Function) map[ssa.Value]int {
+	if m, ok := corrCache[fn]; ok {
+		return m
+	}
+	cnt := map[ssa.Value]int{}
+	var order []ssa.Value
+	for _, b := range fn.Blocks {
+		if len(b.Instrs) == 0 {
+			continue
+		}
+		ifi, ok := b.Instrs[len(b.Instrs)-1].(*ssa.If)
+		if !ok {
+			continue
+		}
+		v, _ := condRoot(ifi.Cond)
+		if _, isK := v.(*ssa.Const); isK {
+			continue
+		}
+		if cnt[v] == 0 {
+			order = append(order, v)
+		}
+		cnt[v]++
+	}
+	m := map[ssa.Value]int{}
+	for _, v := range order {
+		if cnt[v] >= 2 && len(m) < 6 {
+			m[v] = len(m)
+		}
+	}
+	corrCache[fn] = m
+	return m
 }
 
 func (r *Reach) drain() {
 	for len(r.work) > 0 {
-		e := r.work[len(r.work)-1]
+		it := r.work[len(r.work)-1]
 		r.work = r.work[:len(r.work)-1]
+		e := it.e
 		s := e.To()
 		pi := -1
 		for i, p := range s.Preds {
@@ -798,7 +913,7 @@ func (r *Reach) drain() {
 				break
 			}
 		}
-		r.leave(s, 0, pi)
+		r.leave(s, 0, pi, it.f)
 	}
 }
 
@@ -913,7 +1028,13 @@ func (r *Reach) BlockEnd(b *ssa.BasicBlock) bool {
 
 // EdgeReachable reports whether the edge can be traversed.
 func (r *Reach) EdgeReachable(e Edge) bool {
-	return !r.Cut[e] && r.BlockEnd(e.From)
+	if r.Cut[e] || !r.BlockEnd(e.From) {
+		return false
+	}
+	if r.via != nil && len(r.corr) > 0 {
+		return r.via[e] // correlated branches may make an edge of a reachable block infeasible
+	}
+	return true
 }
 
 // Path returns a readable path of block entry lines leading to in.
@@ -1181,6 +1302,9 @@ func SuccessSinks(fn *ssa.Function) []Sink {
 			for i, e := range phi.Edges {
 				pred := b.Preds[i]
 				cls := ClassifyErr(fn, e, pred)
+				if cls != RetFail && edgeImpliesNonNil(pred, b, e) {
+					cls = RetFail // `if err == nil { err = f() }; return err`: the skipping edge carries a non-nil err
+				}
 				if cls != RetFail {
 					idx := succIndex(pred, b)
 					out = append(out, Sink{Instr: ret, Via: &Edge{pred, idx}, Note: "return (phi edge)"})
@@ -1193,6 +1317,30 @@ func SuccessSinks(fn *ssa.Function) []Sink {
 		}
 	}
 	return out
+}
+
+// edgeImpliesNonNil: pred ends in a test of v against nil and control reaches
+// `to` from pred only on the outcome "v != nil".
+func edgeImpliesNonNil(pred, to *ssa.BasicBlock, v ssa.Value) bool {
+	if len(pred.Instrs) == 0 || len(pred.Succs) != 2 || pred.Succs[0] == pred.Succs[1] {
+		return false
+	}
+	ifi, ok := pred.Instrs[len(pred.Instrs)-1].(*ssa.If)
+	if !ok {
+		return false
+	}
+	cv, neg := condRoot(ifi.Cond)
+	x, neq, ok := NilCmp(cv)
+	if !ok || Strip(x) != Strip(v) {
+		return false
+	}
+	// cond true <=> (x != nil) == neq, modulo neg
+	nonNilOnTrue := neq != neg
+	idx := 1
+	if nonNilOnTrue {
+		idx = 0
+	}
+	return pred.Succs[idx] == to
 }
 
 func succIndex(from, to *ssa.BasicBlock) int {
